@@ -13,7 +13,7 @@ RULE = (
     "every double edit (thorough: exhaustive; quick: seeded sample) of 7 consistent base tables over 2 faces x 2 axes and "
     "3 faces, where an edit replaces a link by None or by any (face in {0,1,2,7}, axis in {X,Y,Q}, reverse) triple; plus "
     "seeded random reciprocal tables of 1-6 faces with self-links (must be accepted), tables with two face dimensions and "
-    "with a face dimension missing from the dataset (must be refused). Oracle: independent reciprocity predicate; any "
+    "with a face dimension missing from the dataset, and reciprocal tables one of whose faces is consistently renumbered to a number the face dimension lacks (-1, -2, nf, nf+3) (must be refused). Oracle: independent reciprocity predicate; any "
     "exception counts as refusal. Class = (table family, #links, kinds of links present, model verdict); non-trivial iff "
     "the table has at least one link."
 )
@@ -115,9 +115,20 @@ def gen_case(rng, i, tier):
         items = list(t.items())
         rng.shuffle(items)
         return {"family": "random-reciprocal", "table": dict(items), "nfaces": nf, "axes": ["X", "Y"]}
-    kind = rng.choice(["two-face-dims", "two-face-dims-one-absent", "two-face-dims-absent-first", "facedim-absent", "facedim-absent-consistent"])
+    kind = rng.choice(["two-face-dims", "two-face-dims-one-absent", "two-face-dims-absent-first", "facedim-absent", "facedim-absent-consistent",
+                       "relabelled-face", "relabelled-face"])
     nf = rng.randint(2, 4)
     t = linktable.random_reciprocal(rng, nf, p_link=0.9)
+    if kind == "relabelled-face":
+        # a table that is reciprocal in itself but whose faces are not (all) faces of the dataset: one face consistently
+        # renumbered (as key and as link target) to a number the face dimension does not have
+        old = rng.randrange(nf)
+        new = rng.choice([-1, -1, -2, nf, nf + 3])
+        ren = lambda f: new if f == old else f  # noqa: E731
+        t = {ren(f): {a: [None if l is None else [ren(l[0]), l[1], l[2]] for l in lr] for a, lr in d.items()} for f, d in t.items()}
+        if not any(l is not None and (l[0] == new) for d in t.values() for lr in d.values() for l in lr) and not any(
+                l is not None for lr in t.get(new, {}).values() for l in lr):
+            kind = "relabelled-face-unlinked"
     return {"family": kind, "table": t, "nfaces": nf, "axes": ["X", "Y"]}
 
 
@@ -153,6 +164,11 @@ def run_case(ctx, desc):
     elif fam.startswith("facedim-absent"):
         fc = {"panel": t}
         expect = False
+    elif fam == "relabelled-face-unlinked":
+        # the renumbered face carries no link at all: whether an entry without links for a non-existent face is an
+        # error is not stated; not judged
+        ctx.count("relabelled_face_without_links_not_judged")
+        return
     else:
         fc = {"face": t}
         expect = linktable.reciprocal(t, set(range(nf)), set(desc["axes"]))
